@@ -136,6 +136,6 @@ pub const REQUIRED: &[&str] = &[
     "range:ends-at-i64::MAX", "range:starts-at-i64::MIN+1", "range:single-token",
     "lookup:nothing-after-discard", "lookup:answered", "lookup:dc-restriction-nonempty",
     "maint:node-removed-discards", "maint:node-recreated", "maint:unknown-resolved", "maint:unknown-unresolved-discards",
-    "maint:keyspace-not-tablet-drops", "maint:table-dropped", "maint:noop-refresh", "maint:partial-topology-refresh",
+    "maint:keyspace-not-tablet-drops", "maint:table-dropped", "maint:noop-refresh", "maint:partial-topology-refresh", "batch:several-tablets-in-one-update",
     "payload:refused-range", "payload:refused-negative-shard", "payload:refused-malformed", "payload:accepted",
 ];
